@@ -145,7 +145,7 @@ def parser_trace(ctx, aspects):
     events under 1 or 4 option records, plus a number of parses at the grain of pulls and
     fragment hooks) and validate them with TraceParser."""
     n, fine = (260, 40) if ctx.quick else (6000, 600)
-    trace, s = ctx.record('record-parse', 'parse.ndjson', ['--n', n, '--fine', fine])
+    trace, s = ctx.record('record-parse', 'parse.ndjson', ['--n', n, '--fine', fine] + ([] if ctx.quick else ['--exhaustive-edits', '1']))
     mod = '---- MODULE TRI_parse ----\nEXTENDS TraceParser\n====\n'
     cfg = 'SPECIFICATION TrSpec\nINVARIANT Result\nCHECK_DEADLOCK FALSE\n'
     r = vp.tlc(f'{ctx.pid}_parse', mod, cfg, workers=1, cache=False, env={'TRACE': trace}, timeout=3000,
@@ -181,7 +181,7 @@ def parser_trace(ctx, aspects):
             prefix = os.path.join(vp.ROOT, 'replays', f'{ctx.pid}-parse-event{l}.trace.ndjson')
             os.makedirs(os.path.dirname(prefix), exist_ok=True)
             open(prefix, 'w').write('\n'.join(lines[start:l]) + '\n')
-            text = ''.join(chr(c) for c in ev.get('w', [])) if ev.get('w') else None
+            text = ''.join(chr(c) for c in ev.get('w', [])) if ev.get('w') else (repr(bytes(ev['b'])) if ev.get('b') is not None else None)
             mine.append((aspect, {'what': f'recorded parse is not a behaviour of JsonParser ({why})', 'reason': why, 'event_index': l,
                                   'input': {'text': text, 'o': o}, 'event': ev if len(lines[l - 1]) < 4000 else {'ev': ev['ev']},
                                   'trace_module': 'TraceParser', 'trace_prefix': prefix}))
